@@ -83,7 +83,9 @@ async def drive_tool(spec, run, steps=None, close=False, keep_items=True):
     run.S = S
     try:
         it = tool.a(lib(), spec, S, F)
-    except Exception as err:
+    except Cancel:
+        raise
+    except BaseException as err:
         log.append(("end", "exc", type(err).__name__))
         run.end, run.exc = "exc", err
         return run
@@ -131,9 +133,10 @@ async def drive_tool(spec, run, steps=None, close=False, keep_items=True):
     return run
 
 
-def ref_tool(spec, steps=None, fault=None):
+def ref_tool(spec, steps=None, fault=None, fault2=None):
     """The real stdlib function over the sync twins, driven the same number of steps"""
     world = World()
+    world.fault2 = fault2
     if fault is not None:
         world.set_fault(*fault)
     run = Run(world)
@@ -144,7 +147,7 @@ def ref_tool(spec, steps=None, fault=None):
     deferred = None
     try:
         it = iter(tool.r(spec, S, F))
-    except Exception as err:
+    except BaseException as err:
         # the stdlib validates at construction, async generators at the first step
         deferred = err
         it = None
@@ -199,8 +202,9 @@ async def drive_agg(spec, run):
     return run
 
 
-def ref_agg(spec, fault=None):
+def ref_agg(spec, fault=None, fault2=None):
     world = World()
+    world.fault2 = fault2
     if fault is not None:
         world.set_fault(*fault)
     run = Run(world)
